@@ -19,11 +19,12 @@ use std::{
         atomic::{AtomicBool, AtomicU64, AtomicUsize, Ordering},
     },
 };
+#[cfg(not(zydeco_verif))]
 use tokio::sync::{Mutex, RwLock};
 #[cfg(not(zydeco_verif))]
 use tokio::task::spawn_blocking;
 #[cfg(zydeco_verif)]
-use verif::spawn_blocking;
+use verif::{Mutex, RwLock, spawn_blocking};
 use tower_lsp::{
     Client, LanguageServer,
     jsonrpc::Result,
@@ -595,6 +596,70 @@ pub mod verif {
     /// Install the simulator's thread spawner; without one a job runs inline.
     pub fn set_blocking_spawner(spawner: fn(BlockingJob)) {
         let _ = BLOCKING_SPAWNER.set(spawner);
+    }
+
+    static COOPERATIVE_YIELD: OnceLock<fn() -> bool> = OnceLock::new();
+
+    /// Install the simulator's answer to "does this lock acquisition yield first?".
+    pub fn set_cooperative_yield(decide: fn() -> bool) {
+        let _ = COOPERATIVE_YIELD.set(decide);
+    }
+
+    /// What tokio's cooperative budget does to any of its resources inside a
+    /// runtime: once the task's budget is used up, the next acquisition returns
+    /// `Pending` once even though the resource is free. Here the simulator
+    /// decides where that happens.
+    async fn cooperative_point() {
+        struct YieldOnce(bool);
+        impl Future for YieldOnce {
+            type Output = ();
+            fn poll(
+                mut self: std::pin::Pin<&mut Self>, cx: &mut std::task::Context<'_>,
+            ) -> std::task::Poll<()> {
+                if self.0 {
+                    return std::task::Poll::Ready(());
+                }
+                self.0 = true;
+                cx.waker().wake_by_ref();
+                std::task::Poll::Pending
+            }
+        }
+        if COOPERATIVE_YIELD.get().is_some_and(|decide| decide()) {
+            YieldOnce(false).await
+        }
+    }
+
+    /// `tokio::sync::Mutex` with a [`cooperative_point`] in front of `lock`.
+    pub struct Mutex<T>(tokio::sync::Mutex<T>);
+
+    impl<T> Mutex<T> {
+        pub fn new(value: T) -> Self {
+            Self(tokio::sync::Mutex::new(value))
+        }
+
+        pub async fn lock(&self) -> tokio::sync::MutexGuard<'_, T> {
+            cooperative_point().await;
+            self.0.lock().await
+        }
+    }
+
+    /// `tokio::sync::RwLock` with a [`cooperative_point`] in front of `read`/`write`.
+    pub struct RwLock<T>(tokio::sync::RwLock<T>);
+
+    impl<T> RwLock<T> {
+        pub fn new(value: T) -> Self {
+            Self(tokio::sync::RwLock::new(value))
+        }
+
+        pub async fn read(&self) -> tokio::sync::RwLockReadGuard<'_, T> {
+            cooperative_point().await;
+            self.0.read().await
+        }
+
+        pub async fn write(&self) -> tokio::sync::RwLockWriteGuard<'_, T> {
+            cooperative_point().await;
+            self.0.write().await
+        }
     }
 
     /// Stand-in for `tokio::task::spawn_blocking`: same contract (the job runs
